@@ -168,7 +168,7 @@ def install_gates(ch, payload_of_url):
         f.flush()
         ch.gate("dumpmid")
         f.write(data[len(data) // 2:])
-        f.flush()
+        # no flush here: getting the second half onto the disk (close / flush before the rename) is the loader's job
 
     def loadtxt(*a, **kw):
         ch.gate("parse")
